@@ -91,6 +91,10 @@ GrowBin(t) == LET T == Ty(t) IN
    \cup (IF T \in {NatT, TA} THEN { Bin(C("cons", Fun2(T, ListT(T), ListT(T))), t, C("nil", ListT(T))) } ELSE {})
    \cup (IF T \in {NatT, TA, BoolT} THEN { App(Bin(C("IF", FunT(BoolT, Fun2(T, T, T))), vq, t), u) : u \in LeavesOf(T) } ELSE {})
    \cup (IF T = FunT(NatT, NatT) THEN { Bin(C("comp_fun", Fun2(T, T, T)), t, vf), Bin(C("comp_fun", Fun2(T, T, T)), vf, t) } ELSE {})
+   \* comp_fun at three different types:  P o t  with t : 'a => 'a,   t o g  with t : 'a => bool
+   \cup (IF T = FunT(TA, TA) THEN { Bin(C("comp_fun", Fun2(FunT(TA, BoolT), T, FunT(TA, BoolT))), vP, t) } ELSE {})
+   \cup (IF T = FunT(TA, BoolT) THEN { Bin(C("comp_fun", Fun2(T, FunT(TA, TA), T)), t, vg) } ELSE {})
+   \cup (IF T = FunT(NatT, NatT) THEN { Bin(C("comp_fun", Fun2(FunT(NatT, RealT), T, FunT(NatT, RealT))), C("of_nat", FunT(NatT, RealT)), t) } ELSE {})
 GrowBind(t) == LET T == Ty(t) IN
    { Lambda(v, t) : v \in (FreeVars(t) \cap {vx, va, vp, vf, vP, vxs}) \cup {vy} }
    \cup (IF T = BoolT THEN UNION { { App(C(q, FunT(FunT(v[3], BoolT), BoolT)), Lambda(v, t)) : q \in {"all", "exists"} }
